@@ -32,7 +32,7 @@ def plan(tier):
 def required_counters(tier):
     return ["route:plain", "route:chunked_pointers", "route:monotonic_full", "route:sorted_prefix", "route:prechunked_arrow",
             "route:categorical", "route:bool", "route:range", "route:arrow", "route:multi_key", "null_first_key", "null_last_key",
-            "direct_factorize_1d", "direct_factorize_2d", "direct_monotonic", "invariant_evaluations", "dictionary_array_keys"]
+            "direct_factorize_1d", "direct_factorize_2d", "direct_monotonic", "invariant_evaluations", "dictionary_array_keys", "per_chunk_dictionaries"]
 
 
 def features(case):
@@ -94,8 +94,10 @@ def check(case, ctx):
         gb = lib.call(GroupBy, keys_obj, sort=case["sort"])
         if lib.raised(gb):
             return [{"monitor": "c02.raised", "sig": f"{sig}|construct|{type(gb.exc).__name__}", "detail": f"GroupBy(keys) raised {gb!r}"}]
-        if "pa_dict" in case["kc"]:
+        if "pa_dict" in case["kc"] or "pa_chunked_dict" in case["kc"]:
             ctx.count("dictionary_array_keys")
+        if "pa_chunked_dict" in case["kc"]:
+            ctx.count("per_chunk_dictionaries")
         chunked = bool(getattr(gb, "key_is_chunked", False))
         pointers = getattr(gb, "_group_key_pointers", None) is not None
         # ---- observed route
@@ -108,7 +110,7 @@ def check(case, ctx):
             ctx.count("route:range")
         elif chunked and pointers:
             ctx.count("route:chunked_pointers")
-            if case["kc"][0] in ("pa_chunked", "pd_arrow_chunked"):
+            if case["kc"][0] in ("pa_chunked", "pd_arrow_chunked", "pa_chunked_dict"):
                 ctx.count("route:prechunked_arrow")
             if st and k0.get("layout") == "prefix":
                 ctx.count("route:sorted_prefix")
@@ -258,7 +260,8 @@ def gen_case(rng, containers):
         keys.append(gen.gen_key(rng, n, kind=gen.pick(rng, kinds), nlabels=int(rng.integers(1, 7)), name=gen.pick(rng, [None, f"k{i}"])))
         if kc[i] == "pa" and keys[-1]["kind"] in ("int", "float", "str") and rng.random() < 0.25:
             kc[i] = "pa_dict"
-            ctx_hint = True
+        if kc[i] == "pa_chunked" and keys[-1]["kind"] in ("int", "float", "str") and rng.random() < 0.3:
+            kc[i] = "pa_chunked_dict"
     if nkeys == 1 and rng.random() < 0.05 and n > 1:
         step = int(gen.pick(rng, [1, 2, 3, -1, -2]))
         start = int(rng.integers(-5, 6))
